@@ -853,7 +853,7 @@ def defs_in_loop(b, c, blocks):
 
 
 FINITE_CALL = re.compile(
-    r"(^std::slice::<impl \[T\]>::(iter|iter_mut|get|first|last|windows)$|IntoIterator>::into_iter|^std::iter::Iterator::(map|enumerate|zip|rev|filter|filter_map|flatten|flat_map|take|skip|chain|cloned|copied|peekable)|^std::iter::(empty|once)|HashMap::<.*>::(iter|keys|values|get)$|^itertools::Itertools::(sorted\w*|collect_vec|tuple_windows|unique\w*|dedup\w*)|^std::array::<impl .*>::into_iter|::into_iter$|^std::boxed::Box::<T>::new$|^std::vec::Vec::<T, A>::(iter|len)$|Option::<T>::(map|unwrap_or\w*|iter|into_iter)$)"
+    r"(^std::slice::<impl \[T\]>::(iter|iter_mut|get|first|last|windows)$|IntoIterator>::into_iter|^std::iter::Iterator::(map|enumerate|zip|rev|filter|filter_map|flatten|flat_map|take|skip|chain|cloned|copied|peekable|collect)|^std::iter::(empty|once)|HashMap::<.*>::(iter|keys|values|get)$|^itertools::Itertools::(sorted\w*|collect_vec|tuple_windows|unique\w*|dedup\w*)|^std::array::<impl .*>::into_iter|::into_iter$|^std::boxed::Box::<T>::new$|^std::vec::Vec::<T, A>::(iter|len)$|Option::<T>::(map|unwrap_or\w*|iter|into_iter)$)"
 )
 _FP = {}
 
